@@ -718,6 +718,15 @@ func reviseSeverity(err error) error {
 		return nil
 	}
 	if e, ok := err.(maybeTaskFatalErr); ok {
+		if errors.IsTemporary(e.error) {
+			// A temporary application error must not look like a
+			// transient RPC failure, which the caller retries without
+			// bound. It is not fatal to the task either: the evaluator
+			// resubmits the task, a bounded number of times.
+			e := errors.Recover(e.error)
+			e.Severity = errors.Unknown
+			return e
+		}
 		return e.error
 	}
 	if e, ok := err.(*errors.Error); ok && e != nil && e.Severity == errors.Fatal {
